@@ -13,7 +13,7 @@ HYPOTHESES = ['HB4_hash']
 NOT_YET_PROVED = []
 ASSUMPTIONS = []
 nontrivial = nontrivial_default
-EXTRA_MODULES = {"Props.TieSwu": "PyEcc.Tie.", "Props.TieCofactor": "PyEcc.Tie."}
+EXTRA_MODULES = {"Props.TieSwu": "PyEcc.Tie.", "Props.TieCofactor": "PyEcc.Tie.", "Props.TieHashIso": "PyEcc.Tie."}
 P = O.BLS_P
 CHUNK = 8
 
